@@ -27,7 +27,7 @@ TParam == /\ Is("Param") /\ Step /\ Ev.kind # "none"
           /\ Ev.obj \in DOMAIN objs /\ Ev.name \notin DOMAIN objs[Ev.obj]
           /\ objs' = [objs EXCEPT ![Ev.obj] = @ @@ (Ev.name :> Canon(Rec(Ev, Arity(Ev))))] /\ last' = "ok"
 TLookup == Is("Lookup") /\ Step /\ Lookup(Ev.obj, Ev.name) /\ Ev.threw = (last' = "threw") /\ Ev.null = Ev.threw
-TClone == /\ Is("Clone") /\ Step /\ Ev.idOK /\ Ev.equal /\ Ev.of \in DOMAIN objs
+TClone == /\ Is("Clone") /\ Step /\ Ev.idOK /\ Ev.equal /\ Ev.behaves /\ Ev.of \in DOMAIN objs
           /\ Ev.n = Cardinality(DOMAIN objs[Ev.of]) /\ Clone(Ev.of, Ev.obj)
 \* a parameter is set to another in-domain value; r = <<min, old value(s), max, new value(s)>> on one scale.
 \* The object must have held the old value, no other object may change, the new value must be accepted.
